@@ -92,6 +92,8 @@ type World struct {
 	RunDirRel bool `json:"run_dir_rel,omitempty"`
 	// LinkDirRel: the link directory is named relative to the working directory
 	LinkDirRel bool `json:"link_dir_rel,omitempty"`
+	// LinkDirName: name of the link directory below the world's root ("" = "links")
+	LinkDirName string `json:"link_dir_name,omitempty"`
 	// BundleIntermediates: the caller hands over its intermediates as ONE PEM blob ("forward" | "reverse" order)
 	BundleIntermediates string `json:"bundle_intermediates,omitempty"`
 }
@@ -281,7 +283,7 @@ func (b *Built) FileBytes(f WMetaFile) ([]byte, error) {
 
 // Materialise writes the world below root (which must not exist or be empty).
 func Materialise(w World, root string) (*Built, error) {
-	b := &Built{W: w, Root: root, LinkDir: filepath.Join(root, "links"), ProductDir: filepath.Join(root, "product"),
+	b := &Built{W: w, Root: root, LinkDir: filepath.Join(root, linkDirName(w.LinkDirName)), ProductDir: filepath.Join(root, "product"),
 		LogPath: filepath.Join(root, "exec.log"), LayoutPath: filepath.Join(root, "root.layout")}
 	for _, d := range []string{b.LinkDir, b.ProductDir} {
 		if err := os.MkdirAll(d, 0o755); err != nil {
@@ -349,7 +351,7 @@ func Materialise(w World, root string) (*Built, error) {
 		}
 	}
 	// what an isolated verifier process needs (cmd/worker "verify")
-	vf := VerifyFile{Entry: w.Entry, LineNorm: w.LineNorm, Keys: b.VerifierKeyMap(), Params: w.Params, LinksInProduct: w.LinksInProduct, RunDirRel: w.RunDirRel, LinkDirRel: w.LinkDirRel}
+	vf := VerifyFile{Entry: w.Entry, LineNorm: w.LineNorm, Keys: b.VerifierKeyMap(), Params: w.Params, LinksInProduct: w.LinksInProduct, RunDirRel: w.RunDirRel, LinkDirRel: w.LinkDirRel, LinkDirName: w.LinkDirName}
 	for _, p := range b.IntermediatePEMs() {
 		vf.Intermediates = append(vf.Intermediates, string(p))
 	}
@@ -658,6 +660,14 @@ type VerifyFile struct {
 	LinksInProduct bool                 `json:"links_in_product"`
 	RunDirRel      bool                 `json:"run_dir_rel"`
 	LinkDirRel     bool                 `json:"link_dir_rel"`
+	LinkDirName    string               `json:"link_dir_name,omitempty"`
+}
+
+func linkDirName(n string) string {
+	if n == "" {
+		return "links"
+	}
+	return n
 }
 
 // VerifyResult is the isolated verifier's report.
@@ -684,7 +694,7 @@ func VerifyIsolated(root string) VerifyResult {
 		res.Err = "harness: " + err.Error()
 		return res
 	}
-	b := &Built{Root: root, LinkDir: filepath.Join(root, "links"), ProductDir: filepath.Join(root, "product"), LogPath: filepath.Join(root, "exec.log"), LayoutPath: filepath.Join(root, "root.layout")}
+	b := &Built{Root: root, LinkDir: filepath.Join(root, linkDirName(vf.LinkDirName)), ProductDir: filepath.Join(root, "product"), LogPath: filepath.Join(root, "exec.log"), LayoutPath: filepath.Join(root, "root.layout")}
 	b.W.Entry, b.W.LineNorm, b.W.Params = vf.Entry, vf.LineNorm, vf.Params
 	runRoot := filepath.Join(root, "run")
 	_ = os.RemoveAll(runRoot)
